@@ -1266,6 +1266,33 @@ func runC09(c lib.Case) []string {
 				out = append(out, "not-alive")
 				continue
 			}
+			if f[0] == "release" && x.db != nil && x.op == nil {
+				// an in-process redeploy does what Operator.HandleDeploy does: it closes the previous database before the
+				// directory can be reopened. Close waits for the instance's background tasks; if one of them is held by
+				// the harness' gate, the gate is opened so that Close can finish (with a Close that does not wait —
+				// the code before f9820ca — the task stays held and lands later: D63).
+				db := x.db
+				closed := make(chan struct{})
+				go func() {
+					defer close(closed)
+					defer func() { recover() }()
+					db.Close()
+				}()
+				select {
+				case <-closed:
+				case <-time.After(300 * time.Millisecond):
+					w.mu.Lock()
+					if w.gateRel != nil && w.gateInst == x.idx {
+						close(w.gateRel)
+						w.gateRel = nil
+					}
+					w.mu.Unlock()
+					select {
+					case <-closed:
+					case <-time.After(10 * time.Second):
+					}
+				}
+			}
 			w.mu.Lock()
 			x.alive = false
 			if f[0] == "crash" {
@@ -1961,10 +1988,11 @@ func c09FixedAll() []lib.Case {
 		{Header: "M C09 mem=120 l0=1", Tags: []string{"regress-D46"}, Ops: []string{
 			"open 0-8 gen=0 nbrs=- from=none", "write 0 12 1 0-7", "ckpt 0 1", "write 0 12 2 0-7", "asksplit 0 new", "ckpt 0 2",
 			"write 0 12 3 0-7", "write 0 12 4 0-7", "askresume", "asksplit 0 dead", "jobdrop 1", "retain 0 2", "askresume", "gc", "missing"}},
-		// D63 witness (open finding): instance 0 is dropped inside the living process while one of its compactions
-		// is held creating its output file; instance 1 reopens the directory from checkpoint 1 and flushes tables
-		// under the same numbers; when the held compaction is let go it overwrites a live table of instance 1
-		{Header: "M C09 mem=120 l0=2", Tags: []string{"witness-D63"}, Ops: []string{
+		// D63 (repaired, f9820ca): instance 0 is dropped inside the living process while one of its compactions is
+		// held creating its output file; the redeploy closes it first, which waits for that compaction, so nothing of it
+		// lands after instance 1 reopened the directory from checkpoint 1 and flushed tables under the same numbers.
+		// (With a Close that does not wait, the compaction is let go at `ungate` and overwrites a live table.)
+		{Header: "M C09 mem=120 l0=2", Tags: []string{"regress-D63"}, Ops: []string{
 			"open 0-8 gen=0 nbrs=- from=none", "write 0 12 1 0-7", "ckpt 0 1", "gate 0", "writehold 0 9 2 0-7", "release 0",
 			"open 0-8 gen=1 nbrs=- from=0:1 dir=0", "writeflush 1 12 3 0-7", "ungate", "missing"}},
 		// a scan iterator held across compactions, a retention update and collections pins its tables
